@@ -1,0 +1,52 @@
+//go:build verif
+
+// Contracts for the verification machinery in /verif (comment-only; compiled only with -tags verif).
+// Interface contracts (assumed for callers; the 1.0 implementations are verified against them where stated).
+
+package protocol
+
+//@ spec verOK(c Client, t uint64) bool
+//@ spec verOf(c Client, t uint64) Version
+//@ spec applierOf(v Version) OperationApplier
+//@ spec parserOf(v Version) OperationParser
+//@ spec revealOK(p OperationParser, req bytes) bool
+//@ spec revealOf(p OperationParser, req bytes) string
+//@ spec nextOK(p OperationParser, req bytes) bool
+//@ spec nextOf(p OperationParser, req bytes) string
+//@ spec applyOK(a OperationApplier, op *operation.AnchoredOperation, rm *ResolutionModel) bool
+//@ spec applied(r *ResolutionModel, a OperationApplier, op *operation.AnchoredOperation, rm *ResolutionModel) bool
+//
+//@ iface Client.Get
+//@   results v, err
+//@   ensures (err == nil) == verOK(this, transactionTime)
+//@   ensures err == nil ==> v == verOf(this, transactionTime) && v != nil
+//
+//@ iface Version.OperationApplier
+//@   ensures result == applierOf(this) && result != nil
+//
+//@ iface Version.OperationParser
+//@   ensures result == parserOf(this) && result != nil
+//
+//@ iface OperationParser.GetRevealValue
+//@   results rv, err
+//@   ensures (err == nil) == revealOK(this, operation)
+//@   ensures err == nil ==> rv == revealOf(this, operation)
+//
+//@ iface OperationParser.GetCommitment
+//@   results c, err
+//@   ensures (err == nil) == nextOK(this, operation)
+//@   ensures err == nil ==> c == nextOf(this, operation)
+//
+// Apply: the per-type guarantees are those proved for the 1.0 applier ((*operationapplier.Applier).Apply).
+//@ iface OperationApplier.Apply
+//@   results r0, err
+//@   requires op != nil && rm != nil && op.TransactionTime < 4611686018427387904
+//@   ensures (err == nil) == applyOK(this, op, rm)
+//@   ensures err == nil ==> r0 != nil && allocated(r0) && applied(r0, this, op, rm)
+//@   ensures err == nil ==> (op.Type == operation.TypeCreate || op.Type == operation.TypeUpdate || op.Type == operation.TypeRecover || op.Type == operation.TypeDeactivate)
+//@   ensures err == nil && op.Type == operation.TypeUpdate ==> authUpdate(op.OperationRequest) && r0.RecoveryCommitment == rm.RecoveryCommitment && !r0.Deactivated
+//@   ensures err == nil && op.Type == operation.TypeRecover ==> authRecover(op.OperationRequest) && !r0.Deactivated
+//@   ensures err == nil && op.Type == operation.TypeDeactivate ==> authDeactivate(op.OperationRequest) && r0.Deactivated && r0.UpdateCommitment == "" && r0.RecoveryCommitment == ""
+//@   ensures err == nil && op.Type == operation.TypeCreate ==> rm.Doc == nil && !r0.Deactivated
+//@   ensures err == nil && op.Type != operation.TypeCreate ==> rm.Doc != nil
+//@   ensures err != nil ==> r0 == nil
